@@ -6,6 +6,8 @@ def make_externals(schema):
     ext = Externals()
     from . import eio_model
     eio_model.install(ext, schema)
+    from . import pubsub
+    pubsub.install(ext, schema)
     if getattr(schema, 'api_target', None):
         from . import c17
         ext.obj_dynamic['api'] = c17.api_dynamic(schema)
